@@ -24,13 +24,14 @@ type Profile struct {
 	UserFuncs      bool // hand-written functions with derive-like names
 	Concurrency    bool // do / pipeline / dup / channel forms
 	ZeroResults    bool // functions without results for curry / flip / uncurry / mem (C09 profile)
+	Clusters       bool // shaped groups of calls (curried pairs, arity families, pending names, external test package)
 	Force          bool // Ext / Q are not only allowed but present
 	FuncParamForms bool // unnamed / blank / generator-like parameter names in function-typed arguments
 }
 
 // FullProfile enables everything the properties name.
 func FullProfile(depth int) Profile {
-	return Profile{MaxDecls: 6, MaxCalls: 8, MaxDepth: depth, NamedComposite: true, Ext: true, Q: true, Nested: true, TestFile: true, Forms: true, Curried: true, Unformatted: true, UserFuncs: true, Concurrency: true, FuncParamForms: true}
+	return Profile{MaxDecls: 6, MaxCalls: 8, MaxDepth: depth, NamedComposite: true, Ext: true, Q: true, Nested: true, TestFile: true, Forms: true, Curried: true, Unformatted: true, UserFuncs: true, Concurrency: true, FuncParamForms: true, Clusters: true}
 }
 
 type prevCall struct {
@@ -84,6 +85,22 @@ func Generate(t *tape.Tape, p Profile) *World {
 				}
 			}
 		}
+	}
+	if p.Clusters && t.Chance(1, 5) {
+		g.curriedPair()
+	}
+	if p.Clusters && t.Chance(1, 5) {
+		g.arityFamily()
+	}
+	if p.Clusters && p.Q && p.Nested && t.Chance(1, 4) {
+		g.pendingNameCluster()
+	}
+	if p.Clusters && p.TestFile && t.Chance(1, 5) {
+		// an external test package in the same directory, without derive calls
+		if w.RawFiles == nil {
+			w.RawFiles = map[string]string{}
+		}
+		w.RawFiles["p/x_test.go"] = "package p_test\n\nimport \"testing\"\n\nfunc TestNothing(t *testing.T) {}\n"
 	}
 	if p.Nested && t.Chance(1, 4) {
 		if c := g.deepNest(); c != nil {
